@@ -198,6 +198,13 @@ func (p *c02Prop) afterBlock(b *ibtpBlock, before, after *sim.Dump) {
 		}
 	}
 	// (5) delivery: each accepted request listed exactly once, in this block, for its destination chain
+	for c, v := range b.meta.Counter {
+		for _, vi := range v.Slice {
+			if int(vi.Index) >= len(b.ops) {
+				s.fail("the delivery set of block %d for %s lists transaction index %d, the block has %d transactions (a delivery of another block)", b.height, c, vi.Index, len(b.ops))
+			}
+		}
+	}
 	ch := make(chan *pb.InterchainTxWrappers, 4)
 	for i, op := range b.ops {
 		inDst := 0
@@ -279,9 +286,11 @@ func c02Property(t *rapid.T) {
 		"transfer": func(t *rapid.T) { s.addTransfer() },
 		"call":     func(t *rapid.T) { p.addCall(t) },
 		"seal": func(t *rapid.T) {
-			if len(s.cur) == 0 {
+			if len(s.cur) == 0 && (s.lastEmpty || rapid.IntRange(0, 2).Draw(t, "emptyBlock") != 0) {
 				t.Skip("empty block")
 			}
+			// empty blocks are produced under timed block generation: nothing is delivered by them
+			s.lastEmpty = len(s.cur) == 0
 			seal()
 		},
 		"restart": func(t *rapid.T) {
